@@ -140,13 +140,48 @@ def h_roundtrip(ctx, shapes, fmt, write_date, sign_rot=0):
             _check_species(ctx, gsp, w, 'species %d: ' % k)
 
 
+def h_supplementary(ctx, namelen):
+    """supplementary thermdat entries (supp_data) and a comment block (supp_txt) in front of the species: everything comes back,
+    in file order, whatever the supplementary species is called"""
+    from pmutt.io.thermdat import write_thermdat, read_thermdat
+    E1 = [(1, 1)]
+    sp0, w0 = _species(ctx, 's0', namelen, 'upper', E1, None, signs='pos')
+    sp1, w1 = _species(ctx, 's1', 3, 'upper', E1, None, signs='neg')
+    ctx.assume(w0['name'] != w1['name'])
+    l0 = write_thermdat([sp0], filename=None).split('\n')
+    supp = l0[2] + '\n' + l0[3] + '\n' + l0[4] + '\n' + l0[5]            # the four records of the supplementary species
+    comment = '!species above taken from another file; END of the THERMO comments'
+    text = write_thermdat([sp1], filename=None, supp_data=supp, supp_txt=comment)
+    if ctx.is_sym():
+        from symx import symstr
+        symstr.VFS['mem://c05supp.thermdat'] = text
+        back = read_thermdat('mem://c05supp.thermdat', format='list')
+    else:
+        import tempfile
+        fd, path = tempfile.mkstemp(suffix='.thermdat')
+        os.close(fd)
+        try:
+            with open(path, 'w') as f:
+                f.write(text)
+            back = read_thermdat(path, format='list')
+        finally:
+            os.unlink(path)
+    ctx.true('supplementary species and listed species both read, nothing else', len(back) == 2)
+    if len(back) == 2:
+        _check_species(ctx, back[0], w0, 'supplementary species: ')
+        _check_species(ctx, back[1], w1, 'listed species: ')
+
+
 def groups(tier):
     th = tier == 'thorough'
     g = []
+    for nl in ((3, 4, 6) if th else (4,)):
+        g.append(dict(name='supplementary-data/name%d' % nl, harness=h_supplementary, params=dict(namelen=nl), no_validate=True, max_paths=6000,
+                      budget_s=1500 if not th else 7000))
     E1 = [(1, 1)]
     shapes1 = [
         (1, 'upper', []), (3, 'upper', E1), (6, 'upper', [(1, 1), (1, 2)]), (3, 'any', [(2, 1)]), (4, 'upper', [(1, 1), (1, 0), (1, 3)]),
-        (5, 'upper', [(2, 2), (1, 1), (1, 1), (1, 2)]), (3, 'upper', [(2, 3)]), (2, 'upper', [(1, 3), (2, 1)]), (6, 'any', E1),
+        (5, 'upper', [(2, 2), (1, 1), (1, 1), (1, 2)]), (3, 'upper', [(2, 3)]), (3, 'upper', [(1, 0), (1, 1), (1, 0), (1, 1), (2, 1)]), (2, 'upper', [(1, 3), (2, 1)]), (6, 'any', E1),
     ]
     if th:
         shapes1 += [(8, 'upper', E1), (10, 'upper', [(1, 1)]), (4, 'upper', [(2, 3), (2, 3)])]
